@@ -87,6 +87,11 @@ CLAIMED["C10"] = dict(
    text="Deductive proof (all inputs) of ungroup_notes per element: for an arbitrary grouped item and arbitrary pending tails it first yields exactly the pending tails that precede the item (drain-loop invariant over prefix functions of an abstract heap), then yields / drops / raises about a plain note exactly per the option iff a pending tail sits on its column, turns a NoteWithTail into a head with all five fields and leaves Note(tail_beat, column, TAIL, player, None) pending, and yields every remaining tail at the end. The composition with group_notes (nothing added, dropped or duplicated; order) is a bounded stand-in on the property's 2-column grid, labelled bounded - hence level 'other'.",
    note="Trusted: heapq as an abstract min-priority queue under `<` (pyvc/heaps.py), isinstance on NamedTuple classes, Note.__lt__ = position order (C07), generator laziness and termination of the drain loops not modelled, VC generator, z3/cvc5.",
    technique="contract-based deductive verification (loop invariants + relational per-iteration obligations over an abstract heap) with one bounded stand-in", design_ref="6/C10")
+CLAIMED["C09"] = dict(
+   category="other",
+   text="Deductive proof (all inputs) that the counting functions pass exactly the documented options to group_notes and return the number of groups with at least the documented minimum (steps 1, jumps 2, hands 3 over tap / hold head / roll head / lift joined per beat; holds and rolls: {head, TAIL}, joined, the caller's orphan policies), that count_grouped_notes counts the groups of at least `minimum` notes and count_mines the notes of type MINE. group_notes itself (type filter, head/tail joining with its buffering, same-beat modes, which orphan an exception names) is a bounded stand-in: exhaustive comparison with a declarative reading of the statement over every stream of the 2-column grid and every option combination, run in 12 parallel slices - labelled bounded, hence level 'other'.",
+   note="Trusted: group_notes as a function of its six arguments at the counters' call sites, sum(cond(x) for x in xs) as the count of x with cond(x), generator laziness ignored, VC generator, z3/cvc5. The buffering state machine of join_heads_to_tails_ was not brought under a loop invariant (DESIGN 6/C09).",
+   technique="contract-based deductive verification of the counters (call-site obligations) with a bounded exhaustive stand-in for group_notes", design_ref="6/C09")
 NA_REASON = "not yet brought under contract in this session (work in progress; see DESIGN.md section 6 for the plan)"
 
 NA_TABLE = {}
